@@ -13,6 +13,8 @@ package main
 
 import (
 	"bytes"
+	"encoding/base64"
+	"encoding/binary"
 	"encoding/hex"
 	"encoding/json"
 	"fmt"
@@ -108,11 +110,12 @@ const (
 // spec
 
 type flowSpec struct {
-	Enc  string      `json:"enc"`  // "" = no grpc-encoding header
-	Msgs []grpcx.Msg `json:"msgs"` // gRPC messages
-	Raw  int         `json:"raw,omitempty"`
-	EOS  string      `json:"eos"`  // last | empty | trailers | headers
-	Cuts []int       `json:"cuts"` // offsets in [1,n-1], non-decreasing; a repeat = empty DATA frame
+	Enc     string      `json:"enc"`                // "" = no grpc-encoding header
+	Msgs    []grpcx.Msg `json:"msgs"`               // gRPC messages
+	Raw     int         `json:"raw,omitempty"`      // non-gRPC payload: size (hint for structured kinds)
+	RawKind string      `json:"raw_kind,omitempty"` // "" random | grpcweb | grpcweb-text | flag01 | badlen | zeromsgs
+	EOS     string      `json:"eos"`                // last | empty | trailers | headers
+	Cuts    []int       `json:"cuts"`               // offsets in [1,n-1], non-decreasing; a repeat = empty DATA frame
 
 	// rd caches the rendering for block runners that reuse one flowSpec with
 	// many cut sets (Enc/Msgs/Raw are not changed after the first render).
@@ -140,13 +143,62 @@ func (f *flowSpec) render(pseed uint64, dir int) *grpcx.Rendered {
 
 func (f *flowSpec) render1(pseed uint64, dir int) *grpcx.Rendered {
 	if f.Raw > 0 {
-		rd := &grpcx.Rendered{}
 		rng := rand.New(rand.NewSource(int64(pseed>>1) + int64(dir)))
-		rd.Wire = make([]byte, f.Raw)
-		rng.Read(rd.Wire)
-		return rd
+		return &grpcx.Rendered{Wire: rawPayload(rng, f.RawKind, f.Raw)}
 	}
 	return grpcx.Render(f.Enc, f.Msgs, pseed+uint64(dir)*0x9e37)
+}
+
+// rawPayload renders the DATA bytes of a stream that is not gRPC. Besides
+// random bytes these are byte strings that look like gRPC's length-prefixed
+// framing without being gRPC: gRPC-Web frames (data frames with flag 0x00 and a
+// trailers frame with flag 0x80), their base64 text form (grpc-web-text),
+// frames with flag 0x01, a prefix announcing a huge length, runs of 5-byte
+// zero-length frames.
+func rawPayload(rng *rand.Rand, kind string, size int) []byte {
+	frame := func(flag byte, p []byte) []byte {
+		b := []byte{flag, 0, 0, 0, 0}
+		binary.BigEndian.PutUint32(b[1:], uint32(len(p)))
+		return append(b, p...)
+	}
+	rnd := func(n int) []byte { b := make([]byte, n); rng.Read(b); return b }
+	webFrames := func() []byte {
+		var out []byte
+		for len(out) < size {
+			out = append(out, frame(0x00, rnd(rng.Intn(size/2+2)))...)
+		}
+		return append(out, frame(0x80, []byte("grpc-status:0\r\ngrpc-message:\r\n"))...)
+	}
+	switch kind {
+	case "grpcweb":
+		return webFrames()
+	case "grpcweb-text":
+		// base64, encoded in independently padded pieces as grpc-web-text allows
+		raw := webFrames()
+		var out []byte
+		for len(raw) > 0 {
+			n := 1 + rng.Intn(len(raw))
+			out = append(out, base64.StdEncoding.EncodeToString(raw[:n])...)
+			raw = raw[n:]
+		}
+		return out
+	case "flag01":
+		var out []byte
+		for len(out) < size {
+			out = append(out, frame(0x01, rnd(rng.Intn(size/2+2)))...)
+		}
+		return out
+	case "badlen":
+		out := []byte{byte(rng.Intn(2)), 0x7f, 0xff, 0xff, 0xff}
+		return append(out, rnd(size)...)
+	case "zeromsgs":
+		var out []byte
+		for len(out) < size {
+			out = append(out, 0, 0, 0, 0, 0)
+		}
+		return out
+	}
+	return rnd(size)
 }
 
 // ---------------------------------------------------------------------------
@@ -768,6 +820,24 @@ func judgeNonGRPC(v *verdicts, c *caseSpec, d int, o *obs, via string) {
 	if ends != 1 || endIdx != len(o.sink[d])-1 {
 		v.viol("C11:non-grpc-eos:"+dirName[d], fmt.Sprintf("END_STREAM seen %d times, first at event %d of %d", ends, endIdx, len(o.sink[d])), wit())
 	}
+	if ends == 1 && endIdx == len(o.sink[d])-1 {
+		// END_STREAM placement must be the one that was sent
+		last := o.sink[d][endIdx]
+		got := "last"
+		switch {
+		case last.Kind == 'H':
+			got = "trailers"
+		case len(last.Data) == 0:
+			got = "empty"
+		}
+		want := f.EOS
+		if len(rd.Wire) == 0 && want == "last" {
+			want = "empty"
+		}
+		if got != want {
+			v.viol("C11:non-grpc-eos-placement:"+dirName[d], fmt.Sprintf("END_STREAM of a non-gRPC stream was sent on %q and arrived on %q", want, got), wit())
+		}
+	}
 	// the first HEADERS must arrive as sent
 	if len(o.sink[d]) == 0 || o.sink[d][0].Kind != 'H' || !sameHeaders(o.sink[d][0].Hdr, o.fed[d][0].hdr) {
 		v.viol("C11:non-grpc-headers:"+dirName[d], "HEADERS of a non-gRPC stream did not pass through unchanged", wit())
@@ -783,7 +853,60 @@ func judgeNonGRPC(v *verdicts, c *caseSpec, d int, o *obs, via string) {
 				nd++
 			}
 		}
-		v.r.Class(fmt.Sprintf("%s|non-grpc|ct=%s|frames=%s|eos-in=%s|%s", via, ct, countClass(nd), f.EOS, dirName[d]))
+		kind := f.RawKind
+		if kind == "" {
+			kind = "random"
+		}
+		v.r.Class(fmt.Sprintf("%s|non-grpc|ct=%s|payload=%s|frames=%s|eos-in=%s|%s", via, ct, kind, countClass(nd), f.EOS, dirName[d]))
+		v.r.Count("payload_bytes_compared", int64(len(cat)))
+	}
+}
+
+// judgeAmbiguous: content types whose gRPC-ness the statement and the code do
+// not settle (application/grpc+proto is gRPC by the gRPC HTTP/2 spec but the
+// adapter only recognises the bare type; case variants; parameters). The
+// streams fed are well-formed gRPC under identity, for which both treatments
+// (processed as gRPC by a pass-through processor, or passed through untouched)
+// must put the same bytes on the wire; only that, and END_STREAM once and
+// last, is asserted. Whether the processor is called is recorded, not judged.
+func judgeAmbiguous(v *verdicts, c *caseSpec, d int, o *obs, via string) {
+	rd := o.rd[d]
+	wit := func() interface{} {
+		return map[string]interface{}{"dir": dirName[d], "fed": describeFed(o.fed[d]), "processor_calls": describeCalls(o.calls[d]),
+			"sink": describeSink(o.sink[d]), "errors": o.errs[d]}
+	}
+	before := v.n
+	if len(o.errs[d]) > 0 {
+		v.viol("C11:ambiguous-ct-error:"+dirName[d], "adapter returned an error: "+o.errs[d][0], wit())
+	}
+	var cat []byte
+	ends, endIdx := 0, -1
+	for i, e := range o.sink[d] {
+		if e.Kind == 'D' {
+			cat = append(cat, e.Data...)
+		}
+		if e.Ended {
+			ends++
+			if endIdx < 0 {
+				endIdx = i
+			}
+		}
+	}
+	if !bytes.Equal(cat, rd.Wire) {
+		v.viol("C11:ambiguous-ct-bytes:"+dirName[d], fmt.Sprintf("DATA bytes changed (first diff at %d, got %d bytes want %d) although gRPC processing and pass-through both preserve them", vh.FirstDiff(cat, rd.Wire), len(cat), len(rd.Wire)), wit())
+	}
+	if ends != 1 || endIdx != len(o.sink[d])-1 {
+		v.viol("C11:ambiguous-ct-eos:"+dirName[d], fmt.Sprintf("END_STREAM seen %d times, first at event %d of %d", ends, endIdx, len(o.sink[d])), wit())
+	}
+	if v.n == before {
+		treated := "passed-through"
+		for _, pc := range o.calls[d] {
+			if !pc.Header {
+				treated = "processed-as-grpc"
+				break
+			}
+		}
+		v.r.Class(fmt.Sprintf("%s|ambiguous-ct|ct=%s|%s|eos-in=%s|%s", via, c.CT, treated, c.flow(d).EOS, dirName[d]))
 		v.r.Count("payload_bytes_compared", int64(len(cat)))
 	}
 }
@@ -833,6 +956,8 @@ func checkCase(r *vh.Run, c *caseSpec, mat func() *caseSpec) []string {
 		}
 		if c.Kind == "nongrpc" {
 			judgeNonGRPC(v, c, d, o, via)
+		} else if c.Kind == "ambiguous-ct" {
+			judgeAmbiguous(v, c, d, o, via)
 		} else {
 			judgeGRPC(v, c, d, o, via)
 		}
@@ -1226,39 +1351,91 @@ func runRand(r *vh.Run, child int) {
 // ---------------------------------------------------------------------------
 // non-gRPC streams
 
+// Content types that are certainly not gRPC: pass-through is asserted. The
+// gRPC HTTP/2 spec defines Content-Type as "application/grpc" [("+proto" /
+// "+json" / {custom})]; gRPC-Web (application/grpc-web…) is a different wire
+// protocol (trailers frame with flag 0x80, base64 text variant) and the other
+// strings do not match the grammar.
+var notGRPCTypes = []string{"", "application/json", "text/plain", "application/octet-stream", "application/x-protobuf",
+	"application/grpc-web", "application/grpc-web+proto", "application/grpc-web-text", "application/grpc-web-text+proto",
+	"application/grpcfoo", "application/grp", "application/grpc-", "application/x-grpc", "text/application/grpc"}
+
+// Content types for which neither the statement nor the code settles whether
+// the stream is gRPC (see judgeAmbiguous).
+var ambiguousTypes = []string{"application/grpc+proto", "application/grpc+json", "application/grpc+custom", "APPLICATION/GRPC",
+	"Application/gRPC", "application/grpc; charset=utf-8", "application/grpc;x=y"}
+
+var rawKinds = []string{"", "", "grpcweb", "grpcweb", "grpcweb-text", "flag01", "badlen", "zeromsgs"}
+
+func randCuts(rng *rand.Rand, n int) []int {
+	var cuts []int
+	if n < 2 {
+		return nil
+	}
+	set := map[int]bool{}
+	switch rng.Intn(4) {
+	case 0: // cuts inside the first bytes (where a gRPC prefix would be)
+		hi := n - 1
+		if hi > 6 {
+			hi = 6
+		}
+		for k := 1 + rng.Intn(4); k > 0; k-- {
+			set[1+rng.Intn(hi)] = true
+		}
+	case 1:
+		if n <= 600 {
+			return dribble(n)
+		}
+	}
+	for k := rng.Intn(6); k > 0; k-- {
+		set[1+rng.Intn(n-1)] = true
+	}
+	for x := range set {
+		cuts = append(cuts, x)
+	}
+	sort.Ints(cuts)
+	if len(cuts) > 0 && rng.Intn(4) == 0 {
+		cuts = append(cuts[:1], cuts[0:]...)
+	}
+	return cuts
+}
+
 func runNonGRPC(r *vh.Run, via string, n int, stream string) {
-	cts := []string{"", "application/json", "text/plain", "application/octet-stream", "application/x-protobuf"}
 	for i := 0; i < n; i++ {
 		rng := r.Rng(stream, i)
-		c := &caseSpec{Kind: "nongrpc", Via: via, PSeed: rng.Uint64(), CT: cts[rng.Intn(len(cts))]}
-		mk := func() *flowSpec {
-			f := &flowSpec{Raw: 1 + rng.Intn(300)}
-			if rng.Intn(6) == 0 {
-				f.Raw = 1 + rng.Intn(40000)
-			}
+		c := &caseSpec{Kind: "nongrpc", Via: via, PSeed: rng.Uint64()}
+		ambiguous := rng.Intn(6) == 0
+		if ambiguous {
+			c.Kind = "ambiguous-ct"
+			c.CT = ambiguousTypes[rng.Intn(len(ambiguousTypes))]
+		} else {
+			c.CT = notGRPCTypes[rng.Intn(len(notGRPCTypes))]
+		}
+		mk := func(dir int) *flowSpec {
+			f := &flowSpec{}
 			f.EOS = []string{"last", "empty", "trailers"}[rng.Intn(3)]
-			nc := rng.Intn(6)
-			set := map[int]bool{}
-			for k := 0; k < nc && f.Raw > 1; k++ {
-				set[1+rng.Intn(f.Raw-1)] = true
+			if ambiguous {
+				for k := 1 + rng.Intn(4); k > 0; k-- {
+					f.Msgs = append(f.Msgs, grpcx.Msg{Size: []int{0, 1, 5, 100}[rng.Intn(4)], Flag: rng.Intn(4) == 0})
+				}
+			} else {
+				f.Raw = 1 + rng.Intn(300)
+				if rng.Intn(6) == 0 {
+					f.Raw = 1 + rng.Intn(40000)
+				}
+				f.RawKind = rawKinds[rng.Intn(len(rawKinds))]
 			}
-			for x := range set {
-				f.Cuts = append(f.Cuts, x)
-			}
-			sort.Ints(f.Cuts)
-			if len(f.Cuts) > 0 && rng.Intn(4) == 0 {
-				f.Cuts = append(f.Cuts[:1], f.Cuts[0:]...)
-			}
+			f.Cuts = randCuts(rng, len(f.render(c.PSeed, dir).Wire))
 			return f
 		}
 		switch rng.Intn(3) {
 		case 0:
-			c.C2S = mk()
+			c.C2S = mk(0)
 		case 1:
-			c.S2C = mk()
+			c.S2C = mk(1)
 		default:
-			c.C2S = mk()
-			c.S2C = mk()
+			c.C2S = mk(0)
+			c.S2C = mk(1)
 		}
 		r.Case(c)
 		checkCase(r, c, nil)
@@ -1298,7 +1475,7 @@ func replay(r *vh.Run, raw json.RawMessage) {
 	}
 	json.Unmarshal(raw, &k)
 	switch k.Kind {
-	case "grpc", "nongrpc":
+	case "grpc", "nongrpc", "ambiguous-ct":
 		var c caseSpec
 		if err := json.Unmarshal(raw, &c); err != nil {
 			r.Inconclusive("bad case: "+err.Error(), nil)
